@@ -48,8 +48,87 @@ func (w *World) lockFactsGen(in ssa.Instruction) (add []string, kill []string) {
 }
 
 // locksHeldAt returns the set of lock facts that hold on every path before `at`.
+// Inside a function literal that is handed directly to a call as a synchronous callback (lo.ContainsBy, Map.Range,
+// retry.Do, …) or applied on the spot, the locks held at that call site are held as well.
 func (w *World) locksHeldAt(at ssa.Instruction) factSet {
-	return factsBefore(at.Parent(), w.lockFactsGen, at)
+	fs := factsBefore(at.Parent(), w.lockFactsGen, at)
+	fn := at.Parent()
+	for depth := 0; fn != nil && fn.Parent() != nil && depth < 4; depth++ {
+		site := syncCallbackSite(fn)
+		if site == nil {
+			break
+		}
+		outer := factsBefore(site.Parent(), w.lockFactsGen, site)
+		if fs == nil {
+			fs = factSet{}
+		} else {
+			fs = fs.clone()
+		}
+		for k := range outer {
+			fs[k] = true
+		}
+		fn = site.Parent()
+	}
+	return fs
+}
+
+// syncCallbackSite: the single call instruction that receives literal fn as an argument (or applies it), when fn's
+// closure value has no other use (not started with go, not deferred, not stored).
+func syncCallbackSite(fn *ssa.Function) ssa.Instruction {
+	p := fn.Parent()
+	if p == nil {
+		return nil
+	}
+	var site ssa.Instruction
+	n := 0
+	check := func(v ssa.Value) {
+		if v.Referrers() == nil {
+			return
+		}
+		for _, ref := range *v.Referrers() {
+			switch x := ref.(type) {
+			case *ssa.Call:
+				n++
+				site = x
+			case *ssa.DebugRef:
+			default:
+				_ = x
+				n += 100 // go, defer, store, phi…: not a plain synchronous callback
+			}
+		}
+	}
+	eachInstr(p, func(in ssa.Instruction) {
+		switch x := in.(type) {
+		case *ssa.MakeClosure:
+			if x.Fn == ssa.Value(fn) {
+				check(x)
+			}
+		case *ssa.Call:
+			// a literal without free variables is referenced as a plain function value
+			for _, a := range x.Call.Args {
+				if a == ssa.Value(fn) {
+					n++
+					site = x
+				}
+			}
+			if x.Call.Value == ssa.Value(fn) {
+				n++
+				site = x
+			}
+		case *ssa.Go:
+			if x.Call.Value == ssa.Value(fn) {
+				n += 100
+			}
+		case *ssa.Defer:
+			if x.Call.Value == ssa.Value(fn) {
+				n += 100
+			}
+		}
+	})
+	if n == 1 {
+		return site
+	}
+	return nil
 }
 
 // heldSuffix reports whether a lock whose path ends with suffix is held (mode "W", "R" or "" for any).
